@@ -399,6 +399,36 @@ func (g *Gen) scenario(p *Profile) {
 					}
 				}
 			}
+		case "fault":
+			// an operation whose first storage write fails (injected)
+			switch g.r.Intn(4) {
+			case 0:
+				if line, ok := g.genXfer(e.specNow(), g.ledgerHeight(), ""); ok {
+					g.emit(line)
+					g.emit(fmt.Sprintf("dotx %d fault=1", len(w.Txs)-1))
+				}
+			case 1:
+				if line := g.genKtx("live"); line != "" {
+					g.emit(line)
+					g.emit(fmt.Sprintf("dotx %d fault=1", len(w.Txs)-1))
+				}
+			case 2:
+				cl := g.confirmedList()
+				g.emit(fmt.Sprintf("walk %d fault=1", cl[g.r.Intn(len(cl))]))
+			case 3:
+				st := e.stateTip()
+				if st == e.ledgerTip() {
+					bi := len(w.Blocks)
+					g.emit(fmt.Sprintf("blk %d pre=%d prop=m1 aa=%d aw=%d txs=", bi, st, w.Award, len(w.Txs)))
+					if g.r.Chance(1, 2) {
+						g.emit(fmt.Sprintf("confirm %d fault=1", bi))
+					} else if g.emit(fmt.Sprintf("confirm %d", bi)) != "fail" {
+						g.confirmed[bi] = true
+						g.emit(fmt.Sprintf("play %d fault=1", bi))
+						g.syncState()
+					}
+				}
+			}
 		case "sync":
 			g.syncState()
 		case "reopen":
